@@ -867,6 +867,7 @@ func (e *c11Env) fetchQuiescent(n *vfNode, k c11Key, phase string) c11Op {
 			if attempts < 150 {
 				attempts++
 			}
+			time.Sleep(25 * time.Millisecond)
 		}
 		time.Sleep(15 * time.Millisecond)
 	}
